@@ -88,6 +88,7 @@ class MemConn(secsgem.common.Connection):
     def __init__(self, settings):
         super().__init__(settings)
         self.rig = None
+        self.refuse = 0  # fault input: the next `refuse` calls of send_data return False (the socket refuses the write)
 
     def enable(self):
         pass
@@ -97,6 +98,11 @@ class MemConn(secsgem.common.Connection):
 
     def send_data(self, data):
         rig = self.rig
+        if self.refuse > 0:
+            self.refuse -= 1
+            if rig is not None:
+                rig.log.append(("refused", bytes(data)))
+            return False
         if rig is not None:
             rig.log.append(("raw", bytes(data)))
         return True
